@@ -164,7 +164,7 @@ class Jr(MipsInstruction):
     tokens = [MipsRToken]
     rs = Operand("rs", MipsRegister, read=True)
     syntax = Syntax(["jr", " ", rs])
-    patters = {"opcode": 0, "rs": rs, "rt": 0, "rd": 0, "shamt": 0, "funct": 8}
+    patterns = {"opcode": 0, "rs": rs, "rt": 0, "rd": 0, "shamt": 0, "funct": 8}
 
 
 class Jalr(MipsInstruction):
@@ -173,7 +173,8 @@ class Jalr(MipsInstruction):
     tokens = [MipsRToken]
     rs = Operand("rs", MipsRegister, read=True)
     syntax = Syntax(["jalr", " ", rs])
-    patters = {"opcode": 0, "rs": rs, "rt": 0, "rd": 0, "shamt": 0, "funct": 9}
+    # "jalr rs": the return address goes to ra (rd = 31 implied)
+    patterns = {"opcode": 0, "rs": rs, "rt": 0, "rd": 31, "shamt": 0, "funct": 9}
 
 
 class J(MipsInstruction):
